@@ -258,7 +258,12 @@ fn retarget_ids(i: &mut Inst) -> bool {
 
 fn lift_words(words: &[u32]) -> Result<Result<rspirv::sr::module::Module, String>, String> {
     guarded(|| {
-        let m = dr::load_words(words).map_err(|e| format!("load: {:?}", crate::util::state_name(&e)))?;
+        let mut m = dr::load_words(words).map_err(|e| format!("load: {:?}", crate::util::state_name(&e)))?;
+        // the loader stamps its own generator word: put the input's back (a dr::Module is plain data, and the lifter
+        // must not care who produced it)
+        if let Some(h) = m.header.as_mut() {
+            h.generator = words[2];
+        }
         let first = LiftContext::convert(&m).map_err(|e| format!("{:?}", e));
         // second use: lifting the same module again gives the same result
         let second = LiftContext::convert(&m).map_err(|e| format!("{:?}", e));
